@@ -57,6 +57,9 @@ CLAIMED = {
  "C17": dict(cat="fault_enumeration", tech="exhaustive enumeration of (operation, pre-state) x listeners x failing position x failing hook x registration path on the real keeper with recording / vetoing listeners", ref="DESIGN.md §5 C17",
    text="all 426 cases of the product are executed on a second real keeper over the application's own store: exact call sequence, arguments vs message / committed record / real transfers, announced record not yet visible to the listener, veto => wrapped error and nothing committed at the transaction boundary, settlement veto reported by the block hook",
    note=TRUST + "; depinject wiring inside app.New is not exercised (no provider can be added from outside); at most 3 listeners; interpretation I4"),
+ "C14": dict(cat="exploration", tech="schedule exploration (iterative deviation bounding) over the iteration order of every map range, owned through a type-directed build-time -overlay rewrite", ref="DESIGN.md §4, §5 C14",
+   text="every map range / maps.Keys call of the module is rewritten (overlay, /repo untouched) to take its key order from a scheduler; for each history of the catalogue (2-3 bidder settlements of fixed and batch auctions, an extended round, two auctions settling in one block, listener registration; thorough: 4 bidders) every schedule with <=2 (thorough <=3) ranges off the canonical order, each trying all permutations, must give byte-identical ordered events, store dump and balances; canonical digests are compared across worker processes",
+   note=TRUST + "; a new map range is picked up automatically, a form the rewriter cannot own fails the check loudly; containers inside the SDK are out of scope"),
  "C07": dict(cat="model_checking", tech=MC + " + exhaustive single-fault enumeration over the bank calls of every distinct effective block",
    ref="DESIGN.md §5 C07",
    text="(a) every explored state of the lifecycle and multi-auction scenarios x every later block instant: the module's registered block hook returns nil and does not panic; (b) for every distinct (state, block time) whose block calls the bank, each call index in turn returns an injected error and the hook must return an error wrapping it",
